@@ -138,6 +138,19 @@ def data():
     out["float_in_struct_and_array"] = prog([Let("fs", "array<float>", ALit("float", [F(32), F(96), F(64)])), Let("k", "int", I(0), True),
                                              ForIn("x", V("fs"), [If(Bin(">", V("x"), F(48)), [Set("k", Bin("+", V("k"), I(1)))], [])]), Println(V("k")),
                                              Println(Bin("<", Call("at", V("fs"), I(0)), Call("at", V("fs"), I(2))))])
+    # distinct equal-length strings whose 32-bit FNV-1a hashes collide (the VM interns strings by hash + length + bytes)
+    for k, (a, b) in enumerate([("elfgssw", "hpksnps"), ("cadyrbv", "garycva"), ("bnmicrz", "bnstbxl"), ("nakmvxxv", "tbdxatiq")]):
+        out["string_hash_collision_%d" % k] = prog([Let("a", "string", S(a)), Let("b", "string", S(b)), Println(V("a")), Println(V("b")), Println(Bin("==", V("a"), V("b"))),
+                                                    Let("c", "string", Bin("+", S(b[:3]), S(b[3:]))), Println(V("c")), Println(Bin("==", V("a"), V("c"))),
+                                                    Let("arr", "array<string>", ALit("string", [V("a"), V("b"), V("c")])), Println(Call("at", V("arr"), I(1))),
+                                                    If(Bin("==", V("a"), V("b")), [Ret(I(1))], [])])
+    # int_to_string / string concatenation at the 64-bit boundaries (20-character results)
+    bvals = [0, -1, 9, -9, 10, 2**31, -2**31, 2**32, 10**18, -10**18, -10**18 - 1, 9223372036854775807, -9223372036854775807, -9223372036854775808]
+    body = []
+    for k, v in enumerate(bvals):
+        body += [Let("v%d" % k, "int", I(v)), Let("s%d" % k, "string", Call("int_to_string", V("v%d" % k))), Println(V("s%d" % k)),
+                 Println(Call("str_length", V("s%d" % k))), Println(Bin("+", S("<"), Bin("+", V("s%d" % k), S(">"))))]
+    out["int_to_string_boundaries"] = prog(body)
     out["if_expr_block"] = prog([Let("k", "int", I(5)), Println(IfX(Bin(">", V("k"), I(3)), I(1), I(2)))])
     out["exit_codes"] = prog([Println(S("bye"))], ret=300)
     out["assert_fail_runtime"] = prog([Println(S("before")), Assert(Bin("==", Call("t", I(1)), I(2))), Println(S("after"))])
